@@ -1,3 +1,4 @@
+import math
 from ..packet import Packet
 from ..device import Device, OutMixIn
 from ..sim import Environment, Store
@@ -50,11 +51,11 @@ class Port(Device, OutMixIn):
 
             if self.rate > 0:
                 yield env.timeout(packet.size * 8 / self.rate)
-            self.byte_size -= packet.size
-            if not self.store.items:
-                # nothing is held any more: drop the rounding residue that a
-                # history of non-integral sizes leaves in the running sum
-                self.byte_size = 0
+            # the bytes held are now those of the packets still waiting.
+            # They are summed afresh: subtracting from the running float sum
+            # would keep the rounding residue of packets that have left, and
+            # that residue decides the tail-drop test for an exact fit
+            self.byte_size = math.fsum(p.size for p in self.store.items)
             if self.out:
                 self.out.put(packet)
 
